@@ -210,6 +210,7 @@ def run(ctx):
 
     results = parallel_map(one, progs, jobs=8)
     same = diff_known = diff_bad = uncompiled = noextern = 0
+    out_hashes = set()
     builtins_seen = set()
     samples = []
     traces = []
@@ -222,6 +223,7 @@ def run(ctx):
             noextern += 1          # no import table entry: the builtin is not an extern call in this tree
             continue
         builtins_seen.add(builtin)
+        out_hashes.add(sha(a["stdout"]))
         if b.get("trace"):
             traces.append(((name, klass, argsize), b))
         oa = (a["res"], a["code"], a["stdout"])
@@ -273,13 +275,26 @@ def run(ctx):
         "process_run and mktemp_dir are not compared (they use /tmp resp. produce a fresh name per call)",
         "x86-64: doubles are copied through SSE registers; signalling NaNs keep their payload",
     ]
+    tv = cov["trace_validation"]
+    cov.update({
+        "states": rv.distinct + rl.distinct + rp0.distinct, "transitions": rv.generated + rl.generated + rp0.generated,
+        "traces_validated_against_impl": tv.get("executions", 0) if tv.get("accepted") or tv.get("accepted_after_rerun") else 0,
+        "evaluations": 2 * rv.distinct + rl.distinct + 2 * (same + diff_known + diff_bad),
+        "distinct_nontrivial": len({json.dumps(x["v"], sort_keys=True) for x in cases if x["k"] == "val" and x["v"]["t"] != "void"}) + len(out_hashes),
+        "rule": "codec: every value of the bounded grammar (distinct by structure; non-trivial = not void) through the real encoder/decoder, plus its NULL-pointer variant; programs: one per (builtin, argument size class), distinct by the hash of the in-process stdout",
+        "exhaustive": True,
+        "samples": [cases[1], cases[len(cases) // 2]] + samples[:3],
+    })
     return "model_checking", cov, assumptions
 
 
 def replay(ctx, path):
-    d = json.load(open(path))
     tree = ctx.build("plain")
     probe = ctx.probe("cop_probe")
+    if path.endswith(".ndjson") and "trace-" in os.path.basename(path):
+        from props import cop_trace
+        return cop_trace.replay_trace(ctx, L.extract_consts(ctx, tree, probe), probe, path, "C15")
+    d = json.load(open(path))
     _, runner = L.build_standins(ctx, tree)
     work = ctx.dir("replay")
     if d.get("kind") == "codec":
